@@ -12,6 +12,9 @@ import (
 // rest of the current write. Stream mode is an OS-pipe-like byte queue: writes never block, a Read returns
 // whatever is available (messages coalesce), and fragmentation is an environment deviation.
 type Link struct {
+	// FailIf, when set and true at the time of a write, makes the write fail (e.g. "the peer has died": coupled to the
+	// other direction's fault).
+	FailIf func() bool
 	Name   string
 	stream bool
 
@@ -113,6 +116,9 @@ func (w linkWriter) Write(p []byte) (int, error) {
 	idx := l.writes
 	l.writes++
 	if l.FailWriteAt >= 0 && (idx == l.FailWriteAt || (l.FailPersist && idx > l.FailWriteAt)) {
+		return 0, ErrInjected
+	}
+	if l.FailIf != nil && l.FailIf() {
 		return 0, ErrInjected
 	}
 	if l.wClosed || l.rClosed {
